@@ -168,13 +168,15 @@ C04_Causal ==
         /\ \A i \in 1..Len(Out(n)) :
               Out(n)[i].txs = Flatten([ k \in DOMAIN Out(n)[i].evs |-> D[Out(n)[i].evs[k]].txs ])
 
-\* round-received is monotone along ancestry (an ancestor is received no later)
+\* when a block is delivered every ancestor of its events has been received,
+\* in that round or an earlier one (an ancestor may be received later in time
+\* than its descendant while an intermediate round is undecided, but not
+\* later than the delivery of the descendant's block)
 C04_AncestorsFirst ==
-    \A n \in Nodes : \A e \in DOMAIN nodes[n].h.E :
-        nodes[n].h.E[e].rr # -1 =>
-            \A a \in AncSet(D, e) \cap DOMAIN nodes[n].h.E :
-                /\ nodes[n].h.E[a].rr # -1
-                /\ nodes[n].h.E[a].rr <= nodes[n].h.E[e].rr
+    \A n \in Nodes : \A i \in 1..Len(Out(n)) : \A k \in 1..Len(Out(n)[i].evs) :
+        \A a \in AncSet(D, Out(n)[i].evs[k]) \cap DOMAIN nodes[n].h.E :
+            /\ nodes[n].h.E[a].rr # -1
+            /\ nodes[n].h.E[a].rr <= Out(n)[i].rr
 
 \* C05: committed transactions were submitted; none twice; none lost
 AllTxs(n) == Flatten([ i \in 1..Len(Out(n)) |-> Out(n)[i].txs ])
